@@ -618,7 +618,10 @@ root:
 				}
 			}
 
-			color = shiftColor(color, hsvOfsset*0.5)
+			if hsvOfsset != 0 {
+				// (the HSV round trip is lossy: with nothing to shift the colour is sent exactly as configured)
+				color = shiftColor(color, hsvOfsset*0.5)
+			}
 
 			ledArray[id] = color
 		}
